@@ -1,12 +1,24 @@
 """C13 - cookie values round-trip and cannot inject attributes.
 
 Streams
-  value   dump_cookie('k', v) for Unicode v  vs  Model.Cookie.dumpValue; oracle: ASCII, escaping,
-          round trip through sansio.parse_cookie and http.parse_cookie
-  attrs   dump_cookie with every attribute combination vs Model.Cookie.dumpCookie; oracle: exactly the
-          requested attributes, canonical spelling, fixed order, no injected attribute
-  parse   hostile Cookie header text (no LF) vs Model.Cookie.parseCookie / parseCookieEnviron
-  jar     test client jar: Response.set_cookie -> Client -> Request.cookies (oracle only)
+  value     dump_cookie('k', v) for Unicode v  vs  Model.Cookie.dumpValue; oracle: ASCII, escaping,
+            round trip through sansio.parse_cookie and http.parse_cookie
+  attrs     dump_cookie with its REAL signature (max_age int/timedelta, expires str/datetime/timestamp,
+            sync_expires, domain with port / leading dots / IDNA, path, max_size, samesite, partitioned)
+            vs Model.CookieAttrs.dumpCookieFull; oracle: exactly the requested attributes, canonical
+            spelling and values, fixed order, no injected attribute
+  parse     hostile Cookie header text (no LF) vs Model.Cookie.parseCookie / parseCookieEnviron, exact pair
+            order (cls=list) plus the MultiDict view (first value / getlist) for duplicate names
+  resp      sequences of Response.set_cookie / delete_cookie on one Response vs Model.CookieAttrs.responseSetCookie /
+            responseDeleteCookie; oracle: every added Set-Cookie header carries exactly the requested attributes
+            and its pair parses back to the value
+  jar       multi-step histories through werkzeug.test.Client (responses that set / delete cookies on
+            several hosts and paths, raw hostile Set-Cookie headers, Client.set_cookie / delete_cookie /
+            get_cookie, then requests to other hosts / paths) vs Model.CookieJar; oracle: a value the app
+            receives is a value that was set under that name, and a cookie set by a response comes back
+            unchanged on the next request to the same URL
+  match     Cookie._matches_request on random domains / paths vs Model.CookieJar.domainMatch / pathMatch
+  jar-paths test client jar with cookie paths containing spaces / non-ASCII / ';' (oracle only)
 """
 from __future__ import annotations
 
@@ -101,6 +113,8 @@ class ValueStream(Stream):
     def model_line(self, case):
         return line("cookie.dumpvalue", case["v"])
 
+    SP_ONLY = "raw non-cookie-octet inside quotes: [' ']"
+
     def oracle(self, case, real_out):
         from werkzeug.http import parse_cookie as env_parse
         from werkzeug.sansio.http import parse_cookie as sans_parse
@@ -111,14 +125,19 @@ class ValueStream(Stream):
         ev = unhs(real_out)
         if any(ord(c) > 0x7E or ord(c) < 0x20 for c in ev):
             return "emitted value is not printable ASCII"
+        raw_problem = None
         if len(ev) >= 2 and ev[0] == '"' and ev[-1] == '"' and not all(ord(c) in COOKIE_OCTET for c in ev):
             bad = body_tokens_ok(ev[1:-1])
             if bad is None:
                 return "malformed escape inside quoted value"
             if bad:
-                return "raw non-cookie-octet inside quotes: " + repr(sorted(set(bad)))
+                raw_problem = "raw non-cookie-octet inside quotes: " + repr(sorted(set(bad)))
         elif not all(ord(c) in COOKIE_OCTET for c in ev):
             return "unquoted value contains a non-cookie-octet"
+        # every other clause is checked BEFORE the raw-octet problem is reported, so that a case which
+        # shows the known raw-SP behaviour (F13b) and breaks another clause reports the other clause
+        if raw_problem is not None and raw_problem != self.SP_ONLY:
+            return raw_problem
         got = list(sans_parse(f"k={ev}").items(multi=True))
         if got != [("k", v)]:
             return f"sansio.parse_cookie round trip gives {got!r}"
@@ -128,12 +147,38 @@ class ValueStream(Stream):
         got = list(sans_parse(f"a=1; k={ev}; z=2").items(multi=True))
         if got != [("a", "1"), ("k", v), ("z", "2")]:
             return f"value ends the pair / injects in a jar header: {got!r}"
-        return None
+        return raw_problem
 
     def finding_key(self, case, what):
-        if what == "raw non-cookie-octet inside quotes: [' ']":
-            return "F13b"
-        return None
+        # F13b = exactly: the value contains SP, the emitted value is the quoted form in which SP is
+        # the ONLY raw non-cookie-octet (every other byte escaped as the documented table says), and
+        # every other clause (printable ASCII, round trip through both parsers, inert in a jar header)
+        # holds - the oracle reports the raw-SP problem last, after all of those passed. Additionally
+        # the emitted text must be exactly what the proved closed form of the escaping pass predicts
+        # (Lemmas/Cookie.lean `esc1`: cookie-octets and SP verbatim, `"` and `\` backslash-escaped,
+        # everything else as three octal digits), so any other wrong output on such a value is not F13b.
+        if what != self.SP_ONLY:
+            return None
+        v = unhs(case["v"])
+        if " " not in v:
+            return None
+        exp = []
+        for b in v.encode("utf-8"):
+            if b in COOKIE_OCTET or b == 0x20:
+                exp.append(chr(b))
+            elif b in (0x22, 0x5C):
+                exp.append("\\" + chr(b))
+            else:
+                exp.append("\\%03o" % b)
+        try:
+            from werkzeug.http import dump_cookie
+
+            h = dump_cookie("k", v)
+        except Exception:  # noqa: BLE001
+            return None
+        if h != 'k="' + "".join(exp) + '"; Path=/':
+            return None
+        return "F13b"
 
     def nontrivial(self, case, real_out):
         return real_out.startswith("22")  # quoted
@@ -150,136 +195,347 @@ class ValueStream(Stream):
             yield {"v": hs(v[i])}
 
 
-SAMESITE = [None, "Strict", "strict", "LAX", "lAx", "none", "None", "bogus", ""]
-PATHS = [None, "/", "/a b", "/a;b", "/é", "/a%20b", "/x,y", "/\x7f", "/a\tb"]
-DOMAINS = [None, "example.com", ".example.com", "example.com:8080", "localhost", "bücher.example", ""]
-EXPIRES = [None, "str:Thu, 01 Jan 2026 00:00:00 GMT", "ts:0", "ts:1700000000", "dt:2030-05-06T07:08:09", "str:x; Secure"]
-MAXAGE = [None, "i:0", "i:3600", "i:-1", "td:90061"]
+SAMESITE = [None, "Strict", "strict", "LAX", "lAx", "none", "None", "NONE", "sTRICT", "bogus", "", "lax ", "Strict;", "la x"]
+PATHS = [None, "/", "/a b", "/a;b", "/é", "/a%20b", "/x,y", "/\x7f", "/a\tb", "", "/x;Domain=evil.example", "/a\"b\\c", "/~user/_-.", "/\U0001f600", "/a?b#c", "//", "/ä/ö ü"]
+DOMAINS = [None, "example.com", ".example.com", "example.com:8080", "localhost", "bücher.example", "", "..example.com", ".bücher.example:443", ":80", "...", "a..b", "x" * 64 + ".com", "x" * 63 + ".com", "EXAMPLE.Com", "a.b.", "straße.de:1", "[::1]:80", "。x"]
+EXPIRES = [None, "str:Thu, 01 Jan 2026 00:00:00 GMT", "ts:0", "ts:1700000000", "dt:2030-05-06T07:08:09", "str:x; Secure", "dt:2030-05-06T07:08:09+02:00", "dt:1999-12-31T23:59:59-11:30", "f:1700000000.75", "ts:-1", "str:", "str:tomorrow", "ts:253402300800", "dt:0001-01-01T00:00:00", "f:0.0"]
+MAXAGE = [None, "i:0", "i:3600", "i:-1", "td:90061000000", "td:0", "td:86400000000", "td:2592000000000", "td:-1000000", "td:-1", "td:-86400000001", "td:1999999", "td:-1999999", "td:86399999999", "i:100000000000000", "i:-100000000000000", "td:6307200000000000"]
+
+
+GOOD_SAMESITE = [None, None, "Strict", "strict", "LAX", "lAx", "none", "None", "NONE", "sTRICT"]
+GOOD_DOMAINS = [None, None, "example.com", ".example.com", "example.com:8080", "localhost", "bücher.example", "", "..example.com", ".bücher.example:443", ":80", "EXAMPLE.Com", "a.b.", "straße.de:1", "x" * 63 + ".com"]
 
 
 def mk_attrs(rng):
     return {
-        "samesite": rng.choice(SAMESITE),
+        "samesite": rng.choice(GOOD_SAMESITE) if rng.random() < 0.85 else rng.choice(SAMESITE),
         "path": rng.choice(PATHS),
-        "domain": rng.choice(DOMAINS),
-        "expires": rng.choice(EXPIRES),
-        "max_age": rng.choice(MAXAGE),
+        "domain": rng.choice(GOOD_DOMAINS) if rng.random() < 0.85 else rng.choice(DOMAINS),
+        "expires": rng.choice(EXPIRES) if rng.random() < 0.6 else None,
+        "max_age": rng.choice(MAXAGE) if rng.random() < 0.5 else ("td:%d" % rng.randrange(-10**13, 10**13) if rng.random() < 0.5 else "i:%d" % rng.randrange(-10**6, 10**6)),
         "secure": rng.random() < 0.5,
         "httponly": rng.random() < 0.5,
         "partitioned": rng.random() < 0.3,
+        "sync": rng.random() < 0.5,
+        "max_size": rng.choice([4093, 4093, 0, 1, 20, 40, 60, -1]),
     }
 
 
-def py_kwargs(a):
-    kw = dict(secure=a["secure"], httponly=a["httponly"], partitioned=a["partitioned"], samesite=a["samesite"], path=a["path"], domain=a["domain"], sync_expires=False)
-    e = a["expires"]
-    if e is not None:
-        kind, _, val = e.partition(":")
-        kw["expires"] = val if kind == "str" else (int(val) if kind == "ts" else datetime.fromisoformat(val))
-    m = a["max_age"]
-    if m is not None:
-        kind, _, val = m.partition(":")
-        kw["max_age"] = int(val) if kind == "i" else timedelta(seconds=int(val))
+def expires_obj(e):
+    """the python object for an encoded expires argument"""
+    kind, _, val = e.partition(":")
+    if kind == "str":
+        return val
+    if kind == "ts":
+        return int(val)
+    if kind == "f":
+        return float(val)
+    return datetime.fromisoformat(val)
+
+
+def max_age_obj(m):
+    kind, _, val = m.partition(":")
+    return int(val) if kind == "i" else timedelta(microseconds=int(val))
+
+
+def max_age_seconds(m):
+    """the requested Max-Age in whole seconds (truncation towards zero for a timedelta)"""
+    kind, _, val = m.partition(":")
+    n = int(val)
+    if kind == "i":
+        return n
+    return -((-n) // 10**6) if n < 0 else n // 10**6
+
+
+def py_kwargs(a, full=True):
+    kw = dict(secure=a["secure"], httponly=a["httponly"], partitioned=a["partitioned"], samesite=a["samesite"], path=a["path"], domain=a["domain"])
+    if full:
+        kw["sync_expires"] = a.get("sync", False)
+        kw["max_size"] = a.get("max_size", 4093)
+    if a["expires"] is not None:
+        kw["expires"] = expires_obj(a["expires"])
+    if a["max_age"] is not None:
+        kw["max_age"] = max_age_obj(a["max_age"])
     return kw
+
+
+def domain_host(d):
+    return d.partition(":")[0].lstrip(".")
+
+
+def _payload(f):
+    try:
+        return hs(f())
+    except Exception as e:  # noqa: BLE001 - the exception class is the opaque function's answer
+        return "!" + type(e).__name__
+
+
+def lib_tables(arg_dicts, extra_texts=()):
+    """tables for the opaque library calls of Model/CookieAttrs.lean `Lib`, computed with the same
+    library functions the code under test calls. `arg_dicts`: dump-argument dicts; `extra_texts`:
+    candidate strings for uri_to_iri / parse_date (superset of what the jar can look up)."""
+    import time
+
+    from werkzeug.http import http_date, parse_date
+    from werkzeug.urls import uri_to_iri
+
+    idna, date, sync, iri, pdate = {}, {}, {}, {}, {}
+    date[hs("ts:0")] = _payload(lambda: http_date(0))
+    for a in arg_dicts:
+        d = a.get("domain")
+        if d:
+            h = domain_host(d)
+            if h and not h.isascii():
+                idna[hs(h)] = _payload(lambda h=h: h.encode("idna").decode("ascii"))
+        e = a.get("expires")
+        if e is not None and not e.startswith("str:"):
+            date[hs(e)] = _payload(lambda e=e: http_date(expires_obj(e)))
+        m = a.get("max_age")
+        if m is not None:
+            n = max_age_seconds(m)
+            try:
+                http_date(time.time() + n)
+            except Exception as ex:  # noqa: BLE001
+                sync[str(n)] = "!" + type(ex).__name__
+            pdate[hs(sync_text(n))] = "1"
+    for t in extra_texts:
+        iri[hs(t)] = hs(uri_to_iri(t))
+        d = parse_date(t)
+        if d is not None:
+            pdate[hs(t)] = str(int(d.timestamp()))
+
+    def enc(tb):
+        return ",".join(f"{k}={v}" for k, v in tb.items()) if tb else "[]"
+
+    return enc(idna), enc(date), enc(sync), enc(iri), enc(pdate)
+
+
+def enc_max_age(m):
+    if m is None:
+        return "~"
+    kind, _, val = m.partition(":")
+    return ("i" if kind == "i" else "t") + val
+
+
+def enc_expires(e):
+    if e is None:
+        return "~"
+    if e.startswith("str:"):
+        return "s" + hs(e[4:])
+    return "o" + hs(e)
+
+
+def enc_dump(sep, k, v, a):
+    return sep.join([k, v, enc_max_age(a["max_age"]), enc_expires(a["expires"]), opt(hs, a["path"]), opt(hs, a["domain"]), b01(a["secure"]), b01(a["httponly"]), b01(a.get("sync", True)), str(a.get("max_size", 4093)), opt(hs, a["samesite"]), b01(a["partitioned"])])
+
+
+def enc_set(sep, k, v, a):
+    return sep.join([k, v, enc_max_age(a["max_age"]), enc_expires(a["expires"]), opt(hs, a["path"]), opt(hs, a["domain"]), b01(a["secure"]), b01(a["httponly"]), opt(hs, a["samesite"]), b01(a["partitioned"])])
+
+
+def enc_del(sep, k, a):
+    return sep.join([k, opt(hs, a["path"]), opt(hs, a["domain"]), b01(a["secure"]), b01(a["httponly"]), opt(hs, a["samesite"]), b01(a["partitioned"])])
+
+
+def sync_text(n):
+    """placeholder for http_date(now + n), as long as a real http_date (29 characters) so that the
+    size warning is unaffected"""
+    return ("@now+%d" % n).ljust(29, "_")
+
+
+def canon_sync(header, a, t0):
+    """replace the clock-dependent Expires of `sync_expires` by `@now+<max_age>` when it denotes
+    t0 + max_age (+- 2 s); anything else is left as emitted"""
+    from werkzeug.http import parse_date
+
+    if a["expires"] is not None or a["max_age"] is None or not a.get("sync", True):
+        return header
+    n = max_age_seconds(a["max_age"])
+    parts = header.split("; ")
+    for i, p in enumerate(parts[1:], 1):
+        if p.startswith("Expires="):
+            d = parse_date(p[8:])
+            if d is not None and abs(d.timestamp() - (t0 + n)) <= 2:
+                parts[i] = "Expires=" + sync_text(n)
+            break
+    return "; ".join(parts)
+
+
+ORDER = ["Domain", "Expires", "Max-Age", "Secure", "HttpOnly", "Path", "SameSite", "Partitioned"]
+
+
+def attr_oracle(h, a, sync_default):
+    """the attribute clause on one emitted header `h` for requested arguments `a`: exactly the requested
+    attributes, canonically spelled, in fixed order. Returns None or a description. Requests that put a
+    raw ';' into an attribute the application controls verbatim (expires string, ASCII domain) are outside
+    the claim."""
+    from urllib.parse import unquote
+
+    from werkzeug.http import parse_date
+
+    e = a["expires"]
+    if e is not None and e.startswith("str:") and ";" in e:
+        return None
+    d = a["domain"]
+    if d is not None and ";" in d:
+        return None
+    parts = h.split("; ")
+    names = [p.partition("=")[0] for p in parts[1:]]
+    sync = a.get("sync", sync_default)
+    expected = []
+    if d is not None:
+        expected.append("Domain")  # an empty string is still a requested (empty) Domain
+    if e is not None or (a["max_age"] is not None and sync):
+        expected.append("Expires")
+    if a["max_age"] is not None:
+        expected.append("Max-Age")
+    if a["secure"] or a["partitioned"]:
+        expected.append("Secure")
+    if a["httponly"]:
+        expected.append("HttpOnly")
+    if a["path"] is not None:
+        expected.append("Path")
+    if a["samesite"] is not None:
+        expected.append("SameSite")
+    if a["partitioned"]:
+        expected.append("Partitioned")
+    if names != expected:
+        return f"attributes {names} != requested {expected}"
+    for p in parts[1:]:
+        n, eq, val = p.partition("=")
+        if n == "SameSite" and (val not in ("Strict", "Lax", "None") or val.casefold() != a["samesite"].casefold()):
+            return f"SameSite not canonical: {val!r}"
+        if n in ("Secure", "HttpOnly", "Partitioned") and eq:
+            return f"flag attribute {n} carries a value"
+        if n == "Path":
+            if any(c in val for c in '; "\\') or any(ord(c) < 0x21 or ord(c) > 0x7E for c in val):
+                return f"Path value not safely quoted: {val!r}"
+            if unquote(val) != unquote(a["path"]):
+                return f"Path value {val!r} is not the requested path"
+        if n == "Max-Age" and val != str(max_age_seconds(a["max_age"])):
+            return f"Max-Age {val!r} != requested {max_age_seconds(a['max_age'])} s"
+        if n == "Domain" and d.isascii() and val != domain_host(d):
+            return f"Domain {val!r} != requested host {domain_host(d)!r}"
+        if n == "Expires" and e is not None:
+            if e.startswith("str:"):
+                if val != e[4:]:
+                    return f"Expires {val!r} != requested text"
+            else:
+                o = expires_obj(e)
+                if isinstance(o, datetime):
+                    want = (o if o.tzinfo is not None else o.replace(tzinfo=timezone.utc)).timestamp()
+                else:
+                    want = o
+                got = parse_date(val)
+                # (email.utils reads years below 1000 as two-digit years: not comparable that way)
+                if int(want // 1) >= -30610224000 and (got is None or got.timestamp() != int(want // 1)):
+                    return f"Expires {val!r} does not denote the requested instant"
+        if n == "Expires" and e is None and not val.startswith("@now+"):
+            return f"Expires {val!r} is not now + Max-Age"
+    return None
 
 
 class AttrStream(Stream):
     name = "attrs"
     corpus = [
-        {"k": hs("k"), "v": hs("v"), "a": {"samesite": "lax", "path": "/", "domain": ".example.com:80", "expires": "ts:0", "max_age": "td:90061", "secure": False, "httponly": True, "partitioned": True}},
-        {"k": hs("sid"), "v": hs("a;b"), "a": {"samesite": None, "path": None, "domain": None, "expires": None, "max_age": None, "secure": False, "httponly": False, "partitioned": False}},
+        {"k": hs("k"), "v": hs("v"), "a": {"samesite": "lax", "path": "/", "domain": ".example.com:80", "expires": "ts:0", "max_age": "td:90061000000", "secure": False, "httponly": True, "partitioned": True, "sync": False, "max_size": 4093}},
+        {"k": hs("sid"), "v": hs("a;b"), "a": {"samesite": None, "path": None, "domain": None, "expires": None, "max_age": None, "secure": False, "httponly": False, "partitioned": False, "sync": True, "max_size": 4093}},
+    ] + [
+        # one-day-or-more and negative timedeltas (C13-c1), with and without sync_expires
+        {"k": hs("k"), "v": hs("v"), "a": {"samesite": None, "path": "/", "domain": None, "expires": None, "max_age": m, "secure": False, "httponly": False, "partitioned": False, "sync": sy, "max_size": 4093}}
+        for m in MAXAGE[1:] for sy in (False, True)
+    ] + [
+        {"k": hs("k"), "v": hs("v"), "a": {"samesite": ss, "path": "/", "domain": None, "expires": None, "max_age": None, "secure": False, "httponly": False, "partitioned": False, "sync": True, "max_size": 4093}}
+        for ss in SAMESITE + ["ſtrict", "ﬆrict", "NONE"]
+    ] + [
+        {"k": hs("k"), "v": hs("v" * n), "a": {"samesite": None, "path": "/", "domain": None, "expires": None, "max_age": None, "secure": False, "httponly": False, "partitioned": False, "sync": True, "max_size": ms}}
+        for n in (1, 9, 10, 11) for ms in (0, 19, 20, 21, -5)
+    ] + [
+        {"k": hs("k"), "v": hs("v"), "a": {"samesite": None, "path": pth, "domain": dom, "expires": None, "max_age": None, "secure": False, "httponly": False, "partitioned": False, "sync": True, "max_size": 4093}}
+        for pth in PATHS for dom in (None, "bücher.example:80")
+    ] + [
+        {"k": hs("k"), "v": hs("v"), "a": {"samesite": None, "path": "/", "domain": dom, "expires": ex, "max_age": None, "secure": False, "httponly": False, "partitioned": False, "sync": True, "max_size": 4093}}
+        for dom in DOMAINS for ex in (None, "dt:2030-05-06T07:08:09+02:00")
     ]
 
     def cases(self, rng, tier):
         while True:
-            yield {"k": hs(rng.choice(["k", "sid", "a-b", "x_y", "é"])), "v": hs(rand_value(rng, 6)), "a": mk_attrs(rng)}
+            yield {"k": hs(rng.choice(["k", "sid", "a-b", "x_y", "é", "__Host-s"])), "v": hs(rand_value(rng, 6)), "a": mk_attrs(rng)}
 
     def real(self, case):
+        import time
+        import warnings
+
         from werkzeug.http import dump_cookie
 
-        return hs(dump_cookie(unhs(case["k"]), unhs(case["v"]), **py_kwargs(case["a"])))
+        a = case["a"]
+        t0 = time.time()
+        with warnings.catch_warnings(record=True) as w:
+            warnings.simplefilter("always")
+            h = dump_cookie(unhs(case["k"]), unhs(case["v"]), **py_kwargs(a))
+        return hs(canon_sync(h, a, t0)) + (":W" if w else ":-")
 
     def model_line(self, case):
-        # opaque sub-steps (urllib quote, IDNA, http_date) are computed here by calling the same
-        # library functions the code calls; the model covers the assembly
-        from urllib.parse import quote
-
-        from werkzeug.http import http_date
-
-        a = case["a"]
-        kw = py_kwargs(a)
-        path = kw["path"]
-        if path is not None:
-            path = quote(path, safe=_path_safe())
-        dom = kw["domain"]
-        if dom:
-            try:
-                dom = dom.partition(":")[0].lstrip(".").encode("idna").decode("ascii")
-            except UnicodeError:
-                return None
-        else:
-            dom = None  # falsy domain is skipped: '' behaves like None?  (see note below)
-            if kw["domain"] == "":
-                dom = ""
-        exp = kw.get("expires")
-        if exp is not None and not isinstance(exp, str):
-            exp = http_date(exp)
-        ma = kw.get("max_age")
-        if isinstance(ma, timedelta):
-            ma = int(ma.total_seconds())
-        return line("cookie.dump", case["k"], case["v"], opt(hs, dom), opt(hs, exp), opt(str, ma), b01(a["secure"]), b01(a["httponly"]), opt(hs, path), opt(hs, a["samesite"]), b01(a["partitioned"]))
-
-    ORDER = ["Domain", "Expires", "Max-Age", "Secure", "HttpOnly", "Path", "SameSite", "Partitioned"]
+        # non-ASCII samesite spellings: str.title() is modelled on ASCII letters only (oracle-only case)
+        ss = case["a"]["samesite"]
+        if ss is not None and not ss.isascii():
+            return None
+        idna, date, sync, _, _ = lib_tables([case["a"]])
+        return line("cookie.dumpfull", idna, date, sync, enc_dump("|", case["k"], case["v"], case["a"]))
 
     def oracle(self, case, real_out):
         a = case["a"]
         if real_out.startswith("EXC"):
             ss = a["samesite"]
-            if real_out == "EXC:ValueError" and ss is not None and ss.title() not in ("Strict", "Lax", "None"):
+            if real_out == "EXC:ValueError" and ss is not None and ss.lower() not in ("strict", "lax", "none"):
+                return None  # "samesite (any case)": anything but the three words is refused
+            # the library calls the arguments are handed to (http_date, the idna codec) refuse some
+            # arguments; that is their answer, not dump_cookie's (compare with calling them directly)
+            if self._library_refuses(a, real_out):
                 return None
             return f"dump_cookie raised {real_out}"
-        h = unhs(real_out)
+        h = unhs(real_out[:-2])
         if any(ord(c) > 0x7E or ord(c) < 0x20 for c in h) and unhs(case["k"]).isascii():
             return "header is not printable ASCII"
-        # split off the pair; the value may contain "; " only inside quotes where ';' is escaped
-        kw = py_kwargs(a)
-        e = kw.get("expires")
-        if isinstance(e, str) and ";" in e:
-            return None  # application supplied a raw attribute string: outside the claim
-        parts = h.split("; ")
-        names = [p.partition("=")[0] for p in parts[1:]]
-        expected = []
-        if kw["domain"] is not None:
-            expected.append("Domain")  # an empty string is still a requested (empty) Domain
-        if kw.get("expires") is not None:
-            expected.append("Expires")
-        if kw.get("max_age") is not None:
-            expected.append("Max-Age")
-        if a["secure"] or a["partitioned"]:
-            expected.append("Secure")
-        if a["httponly"]:
-            expected.append("HttpOnly")
-        if kw["path"] is not None:
-            expected.append("Path")
-        if a["samesite"] is not None:
-            expected.append("SameSite")
-        if a["partitioned"]:
-            expected.append("Partitioned")
-        if names != expected:
-            return f"attributes {names} != requested {expected}"
-        for p in parts[1:]:
-            n, eq, val = p.partition("=")
-            if n == "SameSite" and val not in ("Strict", "Lax", "None"):
-                return f"SameSite not canonical: {val!r}"
-            if n in ("Secure", "HttpOnly", "Partitioned") and eq:
-                return f"flag attribute {n} carries a value"
-            if n == "Path" and any(c in val for c in '; ,"\\') :
-                if "," not in val or any(c in val for c in '; "\\'):
-                    return f"Path value not safely quoted: {val!r}"
-        return None
+        return attr_oracle(h, a, True)
+
+    @staticmethod
+    def _library_refuses(a, real_out):
+        import time
+
+        from werkzeug.http import http_date
+
+        name = real_out[4:]
+        d = a["domain"]
+        if d:
+            try:
+                domain_host(d).encode("idna")
+            except Exception as e:  # noqa: BLE001
+                return type(e).__name__ == name
+        e = a["expires"]
+        if e is not None and not e.startswith("str:"):
+            try:
+                http_date(expires_obj(e))
+            except Exception as ex:  # noqa: BLE001
+                return type(ex).__name__ == name
+        if e is None and a["max_age"] is not None and a.get("sync", True):
+            try:
+                http_date(time.time() + max_age_seconds(a["max_age"]))
+            except Exception as ex:  # noqa: BLE001
+                return type(ex).__name__ == name
+        return False
+
+    def nontrivial(self, case, real_out):
+        return not real_out.startswith("EXC")
 
     def bucket(self, case, real_out):
-        return "error" if real_out.startswith("EXC") else f"attrs={len(unhs(real_out).split('; ')) - 1}"
+        return real_out if real_out.startswith("EXC") else f"attrs={len(unhs(real_out[:-2]).split('; ')) - 1}{real_out[-2:]}"
+
+    def mutate(self, case, rng):
+        a = case["a"]
+        for key, alts in (("max_age", MAXAGE), ("expires", EXPIRES), ("domain", DOMAINS), ("path", PATHS), ("samesite", SAMESITE)):
+            for alt in alts:
+                yield {"k": case["k"], "v": case["v"], "a": {**a, key: alt}}
 
 
 PARSE_TOK = ["a", "b", "k", "=", ";", '"', "\\", " ", "\t", ",", "\\073", "\\\"", "\\\\", "\r", "é", "\xff", "\xc3\xa9", "%3D", "==", '""', "; ", " = ", "\\0", "\\400", "\x0b", "\x1f", "\x85", "\xa0"]
@@ -287,12 +543,18 @@ PARSE_TOK = ["a", "b", "k", "=", ";", '"', "\\", " ", "\t", ",", "\\073", "\\\""
 
 class ParseStream(Stream):
     name = "parse"
-    corpus = [{"h": hs(s), "env": env} for env in (False, True) for s in ["", "a=b", "a=b; c=d", 'a="x\\073y"', "a", "=x", "a=", 'a="', 'a="x', 'a="x" y; b=1', "a = b ;c", 'a="\\"', "a=\xff", 'a="\\303\\251"', ";;;", "a=1;a=2", ' a="b c" ', 'a="\\', 'a=" "', 'a="\\1"']]
+    corpus = [{"h": hs(s), "env": env} for env in (False, True) for s in ["", "a=b", "a=b; c=d", 'a="x\\073y"', "a", "=x", "a=", 'a="', 'a="x', 'a="x" y; b=1', "a = b ;c", 'a="\\"', "a=\xff", 'a="\\303\\251"', ";;;", "a=1;a=2", ' a="b c" ', 'a="\\', 'a=" "', 'a="\\1"',
+        # duplicate names: every pair is kept in order; [] / get return the first
+        "a=1; b=2; a=3", "a=1; a=1", 'a="x"; b=y; a="\\073"; b=', "a=; a=2", "k=1;K=2;k=3", " a =1;a= 2 ;a=3"]]
 
     def cases(self, rng, tier):
         while True:
             n = rng.randrange(1, 10)
-            s = "".join(rng.choice(PARSE_TOK) for _ in range(n))
+            if rng.random() < 0.3:
+                # duplicate-heavy: few names, several pairs
+                s = "; ".join(rng.choice(["a", "b", "a ", "k"]) + "=" + rng.choice(["1", "2", '"x y"', '"\\073"', "", "é", "a=b"]) for _ in range(n))
+            else:
+                s = "".join(rng.choice(PARSE_TOK) for _ in range(n))
             yield {"h": hs(s), "env": rng.random() < 0.4}
 
     def real(self, case):
@@ -300,23 +562,14 @@ class ParseStream(Stream):
         from werkzeug.sansio.http import parse_cookie as sans_parse
 
         h = unhs(case["h"])
-        md = env_parse(h) if case["env"] else sans_parse(h)
-        return out_list(hs(k) + ":" + hs(v) for k, v in md.items(multi=True))
+        parse = env_parse if case["env"] else sans_parse
+        seq = parse(h, cls=list)  # the pairs exactly as parsed, in header order
+        md = parse(h)  # the default MultiDict
+        view = out_list(hs(k) + ":" + opt(hs, md.get(k)) + ":" + "+".join(hs(v) for v in md.getlist(k)) for k in md.keys())
+        return out_list(hs(k) + ":" + hs(v) for k, v in seq) + "#" + view
 
     def model_line(self, case):
-        return line("cookie.parseenv" if case["env"] else "cookie.parse", case["h"])
-
-    def canon_model(self, case, out):
-        # the real result is a MultiDict: items(multi=True) groups values by key in order of the
-        # key's first occurrence; apply the same (stable) grouping to the model's pair list
-        if out in ("[]",) or out.startswith("EXC"):
-            return out
-        pairs = [p.split(":") for p in out.split(",")]
-        keys = []
-        for k, _ in pairs:
-            if k not in keys:
-                keys.append(k)
-        return ",".join(f"{k}:{v}" for kk in keys for k, v in pairs if k == kk)
+        return line("cookie.parsemd", case["h"], b01(case["env"]))
 
     def oracle(self, case, real_out):
         # C07's claim restricted to cookies: no unrelated exception for latin-1 text
@@ -325,20 +578,520 @@ class ParseStream(Stream):
         return None
 
     def nontrivial(self, case, real_out):
-        return real_out != "[]"
+        return not real_out.startswith("[]")
 
     def bucket(self, case, real_out):
-        return "empty" if real_out == "[]" else f"pairs={real_out.count(',') + 1}"
+        if real_out.startswith("EXC"):
+            return real_out
+        pairs, _, view = real_out.partition("#")
+        if pairs == "[]":
+            return "empty"
+        n, k = pairs.count(",") + 1, view.count(",") + 1
+        return f"pairs={n}" + (":dup" if k < n else "")
+
+
+def mk_set(rng, simple=False):
+    """arguments of one Response.set_cookie call"""
+    a = mk_attrs(rng)
+    a.pop("sync")
+    a.pop("max_size")
+    if simple:
+        a["samesite"] = rng.choice(GOOD_SAMESITE)
+        a["expires"] = rng.choice([None, None, "ts:0", "ts:1700000000", "str:Thu, 01 Jan 2026 00:00:00 GMT", "dt:2030-05-06T07:08:09+02:00"])
+    return a
+
+
+def set_kwargs(a):
+    return py_kwargs(a, full=False)
+
+
+def del_kwargs(a):
+    return dict(path=a["path"], domain=a["domain"], secure=a["secure"], httponly=a["httponly"], samesite=a["samesite"], partitioned=a["partitioned"])
+
+
+def as_delete(a):
+    """what delete_cookie(**del_kwargs(a)) requests from set_cookie"""
+    return {**a, "expires": "ts:0", "max_age": "i:0", "sync": True}
+
+
+BASE = {"samesite": None, "path": "/", "domain": None, "expires": None, "max_age": None, "secure": False, "httponly": False, "partitioned": False}
+
+
+class RespStream(Stream):
+    """sequences of set_cookie / delete_cookie on one sans-io Response object"""
+
+    name = "resp"
+    corpus = [
+        {"mcs": 4093, "acts": [{"op": "set", "k": hs("k"), "v": hs("a;b"), "a": BASE}, {"op": "del", "k": hs("k"), "a": BASE}]},
+        {"mcs": 4093, "acts": [{"op": "del", "k": hs("k"), "a": {**BASE, "samesite": "lax", "secure": True, "httponly": True, "partitioned": True, "domain": ".example.com:80", "path": "/a b"}}]},
+        {"mcs": 4093, "acts": [{"op": "del", "k": hs("k"), "a": {**BASE, "samesite": ss}} for ss in ("Strict", "nONE", "bogus")]},
+        {"mcs": 10, "acts": [{"op": "set", "k": hs("k"), "v": hs("v" * 20), "a": BASE}, {"op": "set", "k": hs("k"), "v": hs("v"), "a": {**BASE, "path": None}}]},
+        {"mcs": 0, "acts": [{"op": "set", "k": hs("k"), "v": hs("v" * 5000), "a": BASE}]},
+        {"mcs": 4093, "acts": [{"op": "set", "k": hs("a\nb"), "v": hs("v"), "a": BASE}, {"op": "set", "k": hs("k"), "v": hs("x\r\ny"), "a": BASE}]},
+        {"mcs": 4093, "acts": [{"op": "set", "k": hs("k"), "v": hs("v"), "a": {**BASE, "max_age": "td:86400000000"}}, {"op": "set", "k": hs("k"), "v": hs("v"), "a": {**BASE, "max_age": "td:-1"}}]},
+    ]
+
+    def cases(self, rng, tier):
+        while True:
+            acts = []
+            for _ in range(rng.choice([1, 1, 2, 3, 4])):
+                k = hs(rng.choice(["k", "sid", "a-b", "k"]))
+                if rng.random() < 0.6:
+                    acts.append({"op": "set", "k": k, "v": hs(rand_value(rng, 6)), "a": mk_set(rng)})
+                else:
+                    a = mk_set(rng)
+                    a["expires"] = a["max_age"] = None
+                    acts.append({"op": "del", "k": k, "a": a})
+            yield {"mcs": rng.choice([4093, 4093, 4093, 0, 30, 60]), "acts": acts}
+
+    @staticmethod
+    def run(case):
+        """-> (per call result, list of (header value, t0) added, in order)"""
+        import time
+        import warnings
+
+        from werkzeug.sansio.response import Response
+
+        r = Response()
+        r.max_cookie_size = case["mcs"]
+        res, added = [], []
+        for act in case["acts"]:
+            n0 = len(r.headers.getlist("Set-Cookie"))
+            t0 = time.time()
+            try:
+                with warnings.catch_warnings(record=True) as w:
+                    warnings.simplefilter("always")
+                    if act["op"] == "set":
+                        r.set_cookie(unhs(act["k"]), unhs(act["v"]), **set_kwargs(act["a"]))
+                    else:
+                        r.delete_cookie(unhs(act["k"]), **del_kwargs(act["a"]))
+                res.append("ok:W" if w else "ok:-")
+            except Exception as e:  # noqa: BLE001
+                res.append("EXC:" + type(e).__name__)
+            new = r.headers.getlist("Set-Cookie")[n0:]
+            added.append([(h, t0) for h in new])
+        return res, added, r
+
+    @staticmethod
+    def requested(act):
+        return {**act["a"], "sync": True} if act["op"] == "set" else as_delete(act["a"])
+
+    def real(self, case):
+        res, added, r = self.run(case)
+        hdrs = []
+        for act, new in zip(case["acts"], added):
+            for h, t0 in new:
+                hdrs.append(canon_sync(h, self.requested(act), t0))
+        return out_list(res) + "#" + out_list(hs(h) for h in hdrs)
+
+    def model_line(self, case):
+        dicts = [self.requested(a) for a in case["acts"]]
+        if any(d["samesite"] is not None and not d["samesite"].isascii() for d in dicts):
+            return None
+        idna, date, sync, _, _ = lib_tables(dicts)
+        enc = []
+        for act in case["acts"]:
+            if act["op"] == "set":
+                enc.append("S" + enc_set("|", act["k"], act["v"], act["a"]))
+            else:
+                enc.append("D" + enc_del("|", act["k"], act["a"]))
+        return line("resp.run", idna, date, sync, case["mcs"], ";".join(enc))
+
+    def oracle(self, case, real_out):
+        from werkzeug.sansio.http import parse_cookie as sans_parse
+
+        res, added, _ = self.run(case)
+        for act, rr, new in zip(case["acts"], res, added):
+            req = self.requested(act)
+            if rr.startswith("EXC"):
+                ss = req["samesite"]
+                if rr == "EXC:ValueError" and ss is not None and ss.lower() not in ("strict", "lax", "none"):
+                    continue
+                if rr == "EXC:ValueError" and any(c in unhs(act["k"]) + unhs(act.get("v", "-")) * 0 for c in "\r\n"):
+                    continue  # a name with CR/LF is refused by Headers.add (C05)
+                if AttrStream._library_refuses(req, rr):
+                    continue
+                return f"{act['op']}_cookie raised {rr}"
+            if len(new) != 1:
+                return f"{act['op']}_cookie added {len(new)} Set-Cookie headers"
+            h, t0 = new[0]
+            what = attr_oracle(canon_sync(h, req, t0), req, True)
+            if what is not None:
+                return f"{act['op']}_cookie: {what}"
+            k, v = unhs(act["k"]), (unhs(act["v"]) if act["op"] == "set" else "")
+            if k.isascii() and all(c not in k for c in "=; \t") and k:
+                pair = h.split("; ")[0]
+                got = list(sans_parse(pair).items(multi=True))
+                if got != [(k, v)]:
+                    return f"{act['op']}_cookie: the pair {pair!r} parses back to {got!r}"
+        return None
+
+    def bucket(self, case, real_out):
+        return "acts=%d" % len(case["acts"]) + (":exc" if "EXC" in real_out else "") + (":warn" if ":W" in real_out else "")
+
+    def mutate(self, case, rng):
+        for i in range(len(case["acts"])):
+            yield {"mcs": case["mcs"], "acts": [case["acts"][i]]}
+
+
+JAR_HOSTS = ["a.com", "b.a.com", "xa.com", "localhost", "c.b.a.com", "com"]
+JAR_REQ_PATHS = ["/", "/a", "/a/", "/a/b", "/ab", "/ab/c", "/b", "/a/b/c", "/x y/z", "/é/q", ""]
+JAR_SET_PATHS = ["/", "/", None, None, "/a", "/a/", "/a/b", "/ab", "/x y", "/é", "", "/b"]
+JAR_SET_DOMAINS = [None, None, None, "a.com", ".a.com", "b.a.com", "a.com:8080", "com", "", "xa.com", "localhost"]
+JAR_RAW = [
+    "r=1", "r=1; Max-Age=0", "r=2; max-age=", "r=3; Max-Age", "r=4; MAX-AGE=+5", "r=5; Max-Age=1_0", "r=6; Max-Age=x", "r=7; Max-Age=-0",
+    "r=1; Domain=", "r=1; Domain=.a.com", "r=1; Domain=a.com", "r=1; Path=", "r=1; Path=/a; Path=/b", "r=1;Secure;HttpOnly", "r=1 ; secure ; SameSite = Lax ",
+    "=x", "", "r", "r; Path=/a", 'r="a\\073b"; Path=/', "r=1; Expires=Thu, 01 Jan 1970 00:00:00 GMT", "r=1; expires=garbage", "r=1; Expires=Thu, 01 Jan 2099 00:00:00 GMT",
+    "r=1; Max-Age=5; Expires=Thu, 01 Jan 1970 00:00:00 GMT", "r=1; Max-Age=0; Expires=Thu, 01 Jan 2099 00:00:00 GMT", " r = 1 ; path = /a ", "r=1; PATH=/A", "r=1; Path=/a%20b", "r=1; Path=/x y",
+    "r=1; =; ;", "r=1; domain", "r=1; samesite", "r=a=b; Path=/a=b", "r=\xe9", "r=1; Domain=B.A.COM",
+]
+
+
+def jar_view(host, path):
+    """(server name, path) exactly as Client.run_wsgi_app computes them for a request"""
+    from urllib.parse import urlsplit
+
+    from werkzeug.test import EnvironBuilder
+    from werkzeug.wsgi import get_current_url
+
+    env = EnvironBuilder(path=path, base_url=f"http://{host}/").get_environ()
+    u = urlsplit(get_current_url(env))
+    return u.hostname or "localhost", u.path
+
+
+def show_cookie(c):
+    if c is None:
+        return "~"
+    e = c.expires
+    return "^".join([hs(c.key), hs(c.value), hs(c.decoded_key), hs(c.decoded_value), "~" if e is None else ("0" if e.timestamp() == 0 else "T"), opt(str, c.max_age), hs(c.domain), b01(c.origin_only), hs(c.path), b01(c.secure), b01(c.http_only), opt(hs, c.same_site)])
+
+
+class JarStream(Stream):
+    """multi-step histories through werkzeug.test.Client"""
+
+    name = "jar"
+    B = BASE
+    corpus = []
+
+    @classmethod
+    def _corpus(cls):
+        S = lambda k, v, **kw: {"op": "set", "k": hs(k), "v": hs(v), "a": {**cls.B, **kw}}  # noqa: E731
+        D = lambda k, **kw: {"op": "del", "k": hs(k), "a": {**cls.B, **kw}}  # noqa: E731
+        R = lambda host, path, *acts: {"op": "R", "host": host, "path": path, "mcs": 4093, "acts": list(acts)}  # noqa: E731
+        out = [
+            # set then read back on the same URL, other paths, other hosts
+            [R("a.com", "/a/b", S("k", "x;y")), R("a.com", "/a/b"), R("a.com", "/"), R("b.a.com", "/a/b"), R("xa.com", "/")],
+            # Domain attribute: subdomains match, look-alike suffixes do not
+            [R("a.com", "/", S("k", "v", domain="a.com")), R("b.a.com", "/"), R("xa.com", "/"), R("a.com", "/"), R("com", "/")],
+            # path prefix on a segment boundary only
+            [R("a.com", "/", S("k", "v", path="/a")), R("a.com", "/a"), R("a.com", "/a/"), R("a.com", "/a/b"), R("a.com", "/ab"), R("a.com", "/")],
+            [R("a.com", "/", S("k", "v", path="/a/")), R("a.com", "/a"), R("a.com", "/a/"), R("a.com", "/a/b"), R("a.com", "/ab")],
+            # default path from the request URL
+            [R("a.com", "/a/b", S("k", "v", path=None)), R("a.com", "/a"), R("a.com", "/a/c"), R("a.com", "/"), R("a.com", "/ab")],
+            # delete_cookie addresses the slot set_cookie created
+            [R("a.com", "/", S("k", "v", path="/a", domain="a.com")), R("a.com", "/a", D("k", path="/a", domain="a.com")), R("a.com", "/a"), {"op": "G", "k": hs("k"), "domain": "a.com", "path": "/a"}],
+            # ... and a delete with another path leaves it
+            [R("a.com", "/", S("k", "v", path="/a")), R("a.com", "/a", D("k", path="/")), R("a.com", "/a")],
+            # max_age 0 / negative / expires epoch / expires past; max-age and expires disagreeing
+            [R("a.com", "/", S("k", "1")), R("a.com", "/", S("k", "2", max_age="i:0")), R("a.com", "/")],
+            [R("a.com", "/", S("k", "1")), R("a.com", "/", S("k", "2", max_age="i:-1")), R("a.com", "/")],
+            [R("a.com", "/", S("k", "1")), R("a.com", "/", S("k", "2", expires="ts:0")), R("a.com", "/")],
+            [R("a.com", "/", S("k", "1")), R("a.com", "/", S("k", "2", expires="ts:1")), R("a.com", "/")],
+            [R("a.com", "/", S("k", "1")), R("a.com", "/", S("k", "2", expires="ts:0", max_age="i:3600")), R("a.com", "/")],
+            [R("a.com", "/", S("k", "1", max_age="td:86400000000")), R("a.com", "/")],
+            # same name in several slots: all are sent, in jar order; overwriting keeps the position
+            [R("a.com", "/a/b", S("k", "1", path="/"), S("k", "2", path="/a"), S("j", "3")), R("a.com", "/a/b"), R("a.com", "/a/b", S("k", "4", path="/")), R("a.com", "/a/b"), R("a.com", "/")],
+            # client-side API
+            [{"op": "C", "k": hs("k"), "v": hs("a b;c"), "domain": "a.com", "oo": True, "path": "/a", "a": {**cls.B, "sync": True, "max_size": 4093}}, R("a.com", "/a/b"), R("b.a.com", "/a"), {"op": "G", "k": hs("k"), "domain": "a.com", "path": "/a"}, {"op": "X", "k": hs("k"), "domain": "a.com", "path": "/a"}, R("a.com", "/a/b")],
+            [{"op": "C", "k": hs("k"), "v": hs("v"), "domain": ".a.com:80", "oo": False, "path": "/", "a": {**cls.B, "sync": True, "max_size": 4093}}, R("b.a.com", "/"), {"op": "G", "k": hs("k"), "domain": "a.com", "path": "/"}, {"op": "G", "k": hs("k"), "domain": ".a.com:80", "path": "/"}],
+            [{"op": "C", "k": hs("k"), "v": hs("v"), "domain": "a.com", "oo": True, "path": "/", "a": {**cls.B, "sync": True, "max_size": 4093, "max_age": "i:0"}}, R("a.com", "/")],
+            # raw headers
+            [{"op": "H", "host": "a.com", "path": "/a/b", "raw": [hs(h)]} for h in JAR_RAW[:8]] + [R("a.com", "/a/b")],
+            [{"op": "H", "host": "a.com", "path": "/a/b", "raw": [hs(h) for h in JAR_RAW[8:16]]}, R("a.com", "/a/b"), R("b.a.com", "/a/b")],
+        ]
+        return [{"ops": ops} for ops in out]
+
+    def cases(self, rng, tier):
+        n = 0
+        while n < (2000 if tier == "quick" else 12000):
+            n += 1
+            ops = []
+            hosts = rng.choice([["a.com"], ["a.com", "b.a.com"], ["a.com", "xa.com"], ["localhost", "a.com"], JAR_HOSTS])
+            req_paths = rng.choice([["/a/b"], ["/", "/a", "/a/b"], ["/a", "/a/", "/ab", "/a/b"], JAR_REQ_PATHS])
+            set_paths = rng.choice([["/", None], ["/", "/a", None], ["/a", "/a/", "/ab"], JAR_SET_PATHS])
+            set_domains = rng.choice([[None], [None, None, "a.com"], [None, "a.com", ".a.com", "b.a.com"], JAR_SET_DOMAINS])
+            keys = ["k", "k", "j", "sid"]
+            if rng.random() < 0.6:
+                # most histories start by storing something the later requests can match
+                a = {**self.B, "path": rng.choice(set_paths), "domain": rng.choice(set_domains)}
+                ops.append({"op": "R", "host": hosts[0], "path": rng.choice(req_paths), "mcs": 4093, "acts": [{"op": "set", "k": hs(rng.choice(keys)), "v": hs(rand_value(rng, 5)), "a": a}]})
+            for _ in range(rng.randrange(2, 9)):
+                r = rng.random()
+                if r < 0.45:
+                    acts = []
+                    for _ in range(rng.choice([0, 1, 1, 1, 2, 3])):
+                        a = mk_set(rng, simple=True)
+                        a["path"] = rng.choice(set_paths)
+                        a["domain"] = rng.choice(set_domains)
+                        a["max_age"] = rng.choice([None, None, None, None, None, "i:0", "i:5", "i:-1", "td:86400000000", "td:0", "td:999999"])
+                        if rng.random() < 0.7:
+                            a["expires"] = None
+                        if rng.random() < 0.75:
+                            acts.append({"op": "set", "k": hs(rng.choice(keys)), "v": hs(rand_value(rng, 5)), "a": a})
+                        else:
+                            a["expires"] = a["max_age"] = None
+                            acts.append({"op": "del", "k": hs(rng.choice(keys)), "a": a})
+                    ops.append({"op": "R", "host": rng.choice(hosts), "path": rng.choice(req_paths), "mcs": 4093, "acts": acts})
+                elif r < 0.7:
+                    ops.append({"op": "R", "host": rng.choice(hosts), "path": rng.choice(req_paths), "mcs": 4093, "acts": []})
+                elif r < 0.8:
+                    ops.append({"op": "H", "host": rng.choice(hosts), "path": rng.choice(req_paths), "raw": [hs(rng.choice(JAR_RAW)) for _ in range(rng.choice([1, 1, 2, 3]))]})
+                elif r < 0.9:
+                    a = {**self.B, "sync": True, "max_size": 4093, "samesite": rng.choice(GOOD_SAMESITE), "secure": rng.random() < 0.3, "max_age": rng.choice([None, None, "i:0", "i:7"])}
+                    ops.append({"op": "C", "k": hs(rng.choice(keys)), "v": hs(rand_value(rng, 5)), "domain": rng.choice(["a.com", "localhost", ".a.com", "b.a.com", "a.com:80", "com"]), "oo": rng.random() < 0.6, "path": rng.choice(["/", "/a", "/a/", "/x y", ""]), "a": a})
+                else:
+                    ops.append({"op": rng.choice("XG"), "k": hs(rng.choice(keys)), "domain": rng.choice(["a.com", "localhost", "b.a.com", "com"]), "path": rng.choice(["/", "/a", "/a/", "/x%20y"])})
+            yield {"ops": ops}
+
+    def __init__(self):
+        self.corpus = self._corpus()
+        self._cache = {}
+
+    def run(self, case):
+        """-> (per-op outputs, every Set-Cookie header text seen, every (request, set/del action) pair)"""
+        import time
+        import warnings
+
+        from werkzeug.http import dump_cookie
+        from werkzeug.test import Client
+        from werkzeug.wrappers import Request, Response
+
+        st = {}
+
+        @Request.application
+        def app(request):
+            st["seen"] = (request.environ.get("HTTP_COOKIE"), list(request.cookies.items(multi=True)))
+            r = Response("ok")
+            r.max_cookie_size = st["mcs"]
+            res = []
+            for act in st["acts"]:
+                n0 = len(r.headers.getlist("Set-Cookie"))
+                t0 = time.time()
+                try:
+                    with warnings.catch_warnings(record=True) as w:
+                        warnings.simplefilter("always")
+                        if act["op"] == "set":
+                            r.set_cookie(unhs(act["k"]), unhs(act["v"]), **set_kwargs(act["a"]))
+                        else:
+                            r.delete_cookie(unhs(act["k"]), **del_kwargs(act["a"]))
+                    res.append("ok:W" if w else "ok:-")
+                except Exception as e:  # noqa: BLE001
+                    res.append("EXC:" + type(e).__name__)
+                for h in r.headers.getlist("Set-Cookie")[n0:]:
+                    st["texts"].append(canon_sync(h, RespStream.requested(act), t0))
+            for raw in st["raw"]:
+                r.headers.add("Set-Cookie", raw)
+                st["texts"].append(raw)
+            st["res"] = res
+            return r
+
+        c = Client(app)
+        outs, texts = [], []
+        for op in case["ops"]:
+            kind = op["op"]
+            if kind in ("R", "H"):
+                st.update(seen=None, res=[], texts=[], mcs=op.get("mcs", 4093), acts=op.get("acts", []), raw=[unhs(x) for x in op.get("raw", [])])
+                try:
+                    c.open(path=op["path"], base_url=f"http://{op['host']}/")
+                    upd = "ok"
+                except Exception as e:  # noqa: BLE001
+                    upd = "EXC:" + type(e).__name__
+                texts += st["texts"]
+                hdr, pairs = st["seen"] if st["seen"] is not None else (None, [])
+                seen = opt(hs, hdr) + "|" + out_list(hs(k) + ":" + hs(v) for k, v in pairs)
+                outs.append(seen + ("|" + out_list(st["res"]) if kind == "R" else "") + "|" + upd)
+            elif kind == "C":
+                try:
+                    kw = py_kwargs(op["a"])
+                    kw.pop("domain"), kw.pop("path")
+                    c.set_cookie(unhs(op["k"]), unhs(op["v"]), domain=op["domain"], origin_only=op["oo"], path=op["path"], **kw)
+                    outs.append("ok")
+                except Exception as e:  # noqa: BLE001
+                    outs.append("EXC:" + type(e).__name__)
+                try:
+                    texts.append(dump_cookie(unhs(op["k"]), unhs(op["v"]), **{**py_kwargs(op["a"]), "domain": op["domain"], "path": op["path"]}))
+                except Exception:  # noqa: BLE001
+                    pass
+            elif kind == "X":
+                c.delete_cookie(unhs(op["k"]), domain=op["domain"], path=op["path"])
+                outs.append("ok")
+            else:
+                outs.append(show_cookie(c.get_cookie(unhs(op["k"]), domain=op["domain"], path=op["path"])))
+        return outs, texts
+
+    def real(self, case):
+        outs, texts = self.run(case)
+        self._cache[json_key(case)] = texts
+        return ";".join(outs)
+
+    def model_line(self, case):
+        from urllib.parse import quote
+
+        key = json_key(case)
+        texts = self._cache.pop(key, None)
+        if texts is None:
+            texts = self.run(case)[1]
+        dicts, enc = [], []
+        for op in case["ops"]:
+            kind = op["op"]
+            if kind == "R":
+                srv, pth = jar_view(op["host"], op["path"])
+                acts = []
+                for act in op["acts"]:
+                    dicts.append(RespStream.requested(act))
+                    acts.append(("S" + enc_set("^", act["k"], act["v"], act["a"])) if act["op"] == "set" else ("D" + enc_del("^", act["k"], act["a"])))
+                enc.append("R" + "|".join([hs(srv), hs(pth), str(op["mcs"]), "&".join(acts) if acts else "[]"]))
+            elif kind == "H":
+                srv, pth = jar_view(op["host"], op["path"])
+                enc.append("H" + "|".join([hs(srv), hs(pth), "&".join(op["raw"]) if op["raw"] else "[]"]))
+            elif kind == "C":
+                a = {**op["a"], "domain": op["domain"], "path": op["path"]}
+                dicts.append(a)
+                enc.append("C" + "|".join([hs(op["domain"]), b01(op["oo"]), hs(op["path"]), enc_dump("^", op["k"], op["v"], a)]))
+            else:
+                enc.append(kind + "|".join([op["k"], hs(op["domain"]), hs(op["path"])]))
+        if any(d["samesite"] is not None and not d["samesite"].isascii() for d in dicts):
+            return None
+        # candidate strings the jar may hand to uri_to_iri / parse_date: every attribute value of every
+        # Set-Cookie text seen (a superset)
+        cands = set()
+        for t in texts:
+            for item in t.split(";"):
+                cands.add(item.partition("=")[2].strip())
+        idna, date, sync, iri, pdate = lib_tables(dicts, sorted(cands))
+        return line("jar.run", idna, date, sync, iri, pdate, ";".join(enc))
+
+    def oracle(self, case, real_out):
+        """(1) every value the application receives under a name is a value that was set under that
+        name; (2) a cookie a response sets (not expiring it, for the host itself, any path covering the
+        URL) comes back unchanged on an immediately following request to the same URL."""
+        outs = real_out.split(";")
+        ever = {}
+        prev = None
+        for op, o in zip(case["ops"], outs):
+            kind = op["op"]
+            if kind in ("R", "H"):
+                f = o.split("|")
+                pairs = [] if f[1] == "[]" else [tuple(unhs(x) for x in p.split(":")) for p in f[1].split(",")]
+                for k, v in pairs:
+                    if v not in ever.get(k, ()):
+                        return f"request to {op['host']}{op['path']} carried {k}={v!r}, which was never set"
+                if prev is not None and prev[0] == (op["host"], op["path"]):
+                    got = {}
+                    for k, v in pairs:
+                        got.setdefault(k, []).append(v)
+                    for k, v in prev[1].items():
+                        if v not in got.get(k, []):
+                            return f"cookie {k}={v!r} set by the previous response to {op['host']}{op['path']} did not come back: {got.get(k)!r}"
+                prev = None
+                if kind == "R":
+                    expect = {}
+                    res = [] if f[2] == "[]" else f[2].split(",")
+                    for act, rr in zip(op["acts"], res):
+                        k = unhs(act["k"])
+                        if act["op"] == "set":
+                            ever.setdefault(k, set()).add(unhs(act["v"]))
+                            a = act["a"]
+                            plain = a["domain"] is None and a["path"] in ("/", None) and a["max_age"] is None and a["expires"] is None and rr.startswith("ok") and op["path"].startswith("/")
+                            if plain:
+                                expect[k] = unhs(act["v"])
+                            else:
+                                expect.pop(k, None)
+                        else:
+                            expect.pop(k, None)
+                    if f[-1] == "ok":
+                        prev = ((op["host"], op["path"]), expect)
+                else:
+                    for raw in op["raw"]:
+                        from werkzeug.sansio.http import parse_cookie as sans_parse
+
+                        for k, v in sans_parse(unhs(raw).partition(";")[0]).items(multi=True):
+                            ever.setdefault(k, set()).add(v)
+            elif kind == "C":
+                ever.setdefault(unhs(op["k"]), set()).add(unhs(op["v"]))
+                prev = None
+            else:
+                prev = None if kind == "X" else prev
+        return None
+
+    def nontrivial(self, case, real_out):
+        return any(o.split("|")[0] != "~" for op, o in zip(case["ops"], real_out.split(";")) if op["op"] in "RH")
+
+    def bucket(self, case, real_out):
+        sent = sum(1 for op, o in zip(case["ops"], real_out.split(";")) if op["op"] in "RH" and o.split("|")[0] != "~")
+        return f"ops={min(len(case['ops']), 8)}:sent={min(sent, 4)}" + (":exc" if "EXC" in real_out else "")
+
+    def mutate(self, case, rng):
+        ops = case["ops"]
+        for i in range(len(ops)):
+            yield {"ops": ops[:i] + ops[i + 1 :]}
+
+
+def json_key(case):
+    import json
+
+    return json.dumps(case, sort_keys=True)
+
+
+MATCH_TOK = ["a", "b", ".", "com", "a.com", "/", "x", " ", "é", "A", ".a", "a."]
+
+
+class MatchStream(Stream):
+    """the two halves of Cookie._matches_request on random strings"""
+
+    name = "match"
+    corpus = [{"cd": cd, "oo": oo, "cp": cp, "sn": sn, "rp": rp} for cd, sn in [("a.com", "a.com"), ("a.com", "b.a.com"), ("a.com", "xa.com"), ("", "a.com"), ("a.com", ""), (".", "a."), ("com", ".com")] for oo in (True, False) for cp, rp in [("/", "/"), ("/a", "/a/b"), ("/a", "/ab"), ("/a/", "/a"), ("/a/", "/a/b"), ("", "/a"), ("/a", "/a"), ("a", "a/"), ("/", "")]]
+
+    def cases(self, rng, tier):
+        def word(n, toks):
+            return "".join(rng.choice(toks) for _ in range(rng.randrange(n)))
+
+        while True:
+            cd = word(4, MATCH_TOK)
+            sn = (word(3, MATCH_TOK) + rng.choice(["", "."]) + cd) if rng.random() < 0.6 else word(4, MATCH_TOK)
+            cp = "/" + word(3, ["a", "b", "/", "ab", " "])
+            rp = (cp + rng.choice(["", "/", "b", "/b", "//"])) if rng.random() < 0.7 else "/" + word(4, ["a", "b", "/", "ab"])
+            if rng.random() < 0.1:
+                cp, rp = cp[1:], rp[1:]
+            yield {"cd": cd, "oo": rng.random() < 0.4, "cp": cp, "sn": sn, "rp": rp}
+
+    def real(self, case):
+        from werkzeug.test import Cookie
+
+        def mk(**kw):
+            base = dict(key="k", value="v", decoded_key="k", decoded_value="v", expires=None, max_age=None, domain="d", origin_only=True, path="/", secure=False, http_only=False, same_site=None)
+            base.update(kw)
+            return Cookie(**base)
+
+        d = mk(domain=case["cd"], origin_only=case["oo"], path="/")._matches_request(case["sn"], "/")
+        p = mk(domain="d", path=case["cp"])._matches_request("d", case["rp"])
+        return b01(d) + b01(p)
+
+    def model_line(self, case):
+        return line("jar.match", hs(case["cd"]), b01(case["oo"]), hs(case["cp"]), hs(case["sn"]), hs(case["rp"]))
+
+    def bucket(self, case, real_out):
+        return real_out
 
 
 JAR_PATHS = [None, "/", "/bar", "/my docs", "/my%20docs", "/caf\u00e9", "/a+b", "/x;y", "/q'uote", "/a b/c d"]
 
 
-class JarStream(Stream):
+class JarPathStream(Stream):
     """test client jar: a response sets the cookie (explicit Path attribute, or the default path
     derived from the request URL), a later request under that path must carry it back unchanged"""
 
-    name = "jar"
+    name = "jar-paths"
     corpus = [{"v": hs(s), "path": None, "explicit": True} for s in ["plain", "a b", "x;y", 'q"q', "é", "\x00\x1f", "\\", "a,b", "\U0001f600", "\\101", "C:\\123\\file", "\\073 Domain=evil.example"]] + [
         {"v": hs("v"), "path": p, "explicit": e} for p in JAR_PATHS[1:] for e in (True, False)
     ]
@@ -382,19 +1135,22 @@ class JarStream(Stream):
         return None
 
     def bucket(self, case, real_out):
-        return "jar:" + ("explicit" if case.get("explicit", True) else "default") + ":" + ("root" if not case.get("path") or case.get("path") == "/" else "sub")
+        return "jar-paths:" + ("explicit" if case.get("explicit", True) else "default") + ":" + ("root" if not case.get("path") or case.get("path") == "/" else "sub")
 
 
 CHECK = Check(
     prop="C13",
-    gen=["Cookie"],
+    gen=["Cookie", "CookieGlue"],
     modules=["WzVerif.Props.C13"],
-    streams=[ValueStream(), AttrStream(), ParseStream(), JarStream()],
+    streams=[ValueStream(), AttrStream(), ParseStream(), RespStream(), JarStream(), MatchStream(), JarPathStream()],
     assumptions=[
-        "IDNA encoding of the Domain attribute, urllib.parse.quote of Path and http_date of Expires are opaque parameters of the model (computed by the same library calls in the harness)",
+        "opaque library calls (fields of Model/CookieAttrs.lean `Lib`, every theorem quantifies over them; the harness tabulates them per case with the same library functions): the idna codec on NON-ASCII hosts, http_date of a datetime/timestamp, http_date(now + max_age) for sync_expires (canonicalised to a 29-character placeholder when it denotes now + max_age within 2 s), uri_to_iri of the Path attribute and parse_date of the Expires attribute in the test client's jar",
+        "modelled and validated by the streams, not verified: urllib.parse.quote with dump_cookie's safe= literal (live 256-byte table quoteKeeps + %XX), the idna codec's ASCII fast path (identity + label-length rule), int(timedelta.total_seconds()) as truncation (exact for |td| < 2^33 s; the generators stay below 200 years), str.title()/lower() on ASCII letters, int() on sign + ASCII digits with single underscores",
+        "the test client's view of a request (server name, path) is what urlsplit(get_current_url(environ)) yields; the harness computes it with those functions for the model (C15 owns their theory)",
         "_cookie_re.findall is hand-modelled for header text without LF ('.' does not match LF; werkzeug's cookie strings come from single header lines); validated by stream parse",
         "bytes.decode(errors='replace') is modelled by Lean core's strict UTF-8 decoder on valid input and a hand-written maximal-subpart replacer otherwise; validated by stream parse",
-        "known finding F13b: SP (0x20) is emitted raw inside the quoted value (pinned by tests/test_http.py::test_dump_cookie); theorems are stated for cookie-octet + SP and the full-strength negation is proved",
+        "known finding F13b: SP (0x20) is emitted raw inside the quoted value (pinned by tests/test_http.py::test_dump_cookie); theorems are stated for cookie-octet + SP and the full-strength negation is proved; a violation is labelled F13b only when raw SP is its sole problem and the emitted text equals the proved closed form of the escaping pass",
+        "Cookie._should_delete is modelled as the code has it (max_age == 0, or Expires exactly at the epoch); the property text does not speak about expiry",
     ],
     trusted_extra=["CPython re / str / codecs semantics for the modelled primitives (validated by the streams, not verified)"],
     quick_budget=4000,
@@ -402,8 +1158,8 @@ CHECK = Check(
 )
 
 MANIFEST = {
-    "level_text": "Machine-checked Lean 4 theorems about an executable model of dump_cookie / parse_cookie whose escape tables are regenerated from the live regexes and dict on every run (decide over all 256 bytes, lifted to every value by induction); the hand-written scanner is tied to the code by a differential correspondence stream and the property oracle runs on the real code.",
-    "level_note": "Trusted: Lean kernel; extract.py; the correspondence harness; CPython re/str/codecs for modelled primitives; IDNA, urllib quote of Path and http_date are opaque parameters. Known finding F13b (raw SP).",
-    "technique": "Lean 4 proof (decide +kernel over regenerated tables, induction over byte lists) + model/code correspondence",
+    "level_text": "Machine-checked Lean 4 theorems about an executable model of dump_cookie (value escaping, every attribute argument, size warning), parse_cookie (both parsers, duplicate names), Response.set_cookie / delete_cookie and the test client's cookie jar (header parsing, domain / path matching, storage, whole histories). Escape tables, the Path quoting table, AST facts about the glue (attribute order, SameSite set, forwarded keyword arguments, jar field expressions) and small decision tables of the live jar functions are regenerated on every run and pinned by decide obligations; the hand-written parts are tied to the code by differential correspondence streams (incl. multi-step client histories) and the property oracle runs on the real code.",
+    "level_note": "Trusted: Lean kernel; extract.py; the correspondence harness; CPython re/str/codecs for modelled primitives; the idna codec on non-ASCII hosts, http_date, uri_to_iri and parse_date are opaque parameters of the model (theorems quantify over them). Known finding F13b (raw SP).",
+    "technique": "Lean 4 proof (decide +kernel over regenerated tables, induction over byte lists / headers / jar histories) + model/code correspondence",
     "design_ref": "DESIGN.md section 4, C13",
 }
